@@ -87,3 +87,23 @@ Definition qsafe (rp : str) : bool :=
 (* two lists of inclusive ranges have no common point *)
 Definition ranges_disjoint (l1 l2 : list (N * N)) : bool :=
   forallb (fun p1 => forallb (fun p2 => (snd p1 <? fst p2)%N || (snd p2 <? fst p1)%N) l2) l1.
+
+(* ---- chunked form (the shape of a pretty-printer's output): the tokens are cut into consecutive
+   groups; a chunk is the text a group covers without the tail of its last token *)
+Fixpoint group_text (g : list token) : str :=
+  match g with
+  | [] => []
+  | t :: r => match r with [] => tk_lexeme t | _ => tk_lexeme t ++ tk_tail t ++ group_text r end
+  end.
+
+(* the group with heads removed and the tail of its last token replaced by w *)
+Fixpoint retail (g : list token) (w : str) : list token :=
+  match g with
+  | [] => []
+  | t :: r => mkTok (tk_type t) (tk_lexeme t) (tk_pos t) [] (match r with [] => w | _ => tk_tail t end)
+              :: retail r w
+  end.
+
+(* cutting a token list into consecutive groups of the given sizes (examples) *)
+Fixpoint cut (sizes : list nat) (ts : list token) : list (list token) :=
+  match sizes with [] => [] | n :: r => firstn n ts :: cut r (skipn n ts) end.
